@@ -906,8 +906,15 @@ Stylesheet::addTemplate(
                     }
                     else if (data[i].getTargetType() == XPath::TargetData::eAny)
                     {
+                        // An id() or key() pattern can match
+                        // a node of any kind...
                         addToList(m_elementAnyPatternList, newMatchPat);
                         addToList(m_attributeAnyPatternList, newMatchPat);
+                        addToList(m_textPatternList, newMatchPat);
+                        addToList(m_commentPatternList, newMatchPat);
+                        addToList(m_piPatternList, newMatchPat);
+                        addToList(m_rootPatternList, newMatchPat);
+                        addToList(m_nodePatternList, newMatchPat);
                     }
                 }
                 else
